@@ -30,6 +30,9 @@ LEVEL = "other"
 def header_count_ok(tab):
     """the length passed to serialize_map(Some(n)) / serialize_struct(_, _, n) is
     (#unconditional members) + sum(if P(&self.f) {0} else {1}) over exactly the guarded members"""
+    if "count_ok" in tab["header"]:
+        # hand-written emitter: decided per path (announced count == members emitted on that path)
+        return (True, "") if tab["header"]["count_ok"] else (False, "on some path the announced member count differs from the members emitted")
     hdr = tab["header"]["node"]
     args = H.call_args(hdr)
     n = args[1] if tab["header"]["call"] == "serialize_map" else args[2]
